@@ -48,7 +48,7 @@ theorem inv_step (c : Cfg) (hc : c.cap + 2 ≤ c.slots) (s s' : St) (e : Ev) (h 
   · -- send
     split at hs
     · rename_i hg
-      obtain ⟨hg1, hg2⟩ := hg
+      obtain ⟨hg1, _, hg2⟩ := hg
       cases hs
       simp only [queued] at hg2
       refine ⟨by simp; omega, by simp; omega, by simp; omega, h4, h5, ?_, h7, h8⟩
